@@ -588,8 +588,12 @@ def unit_lines(ctx):
     names = {"a_1_b_2_csv", "_0_x.csv", "P_0_timeseries.csv", "keptP_0_timeseries.csv", "P_kept_0_timeseries.csv",
              "P_0_.csv", "P_0_abcsv", "P_0_a.csv", "P__0_timeseries.csv", "P_0__timeseries.csv", "0_timeseries.csv",
              "P_00_timeseries.csv", "timeseries.csv", "_1_timeseries.csv", "P_1_2_3_estimated_emissions.csv"}
+    toks = ["P", "a", "kept", "keptP", "12", "7", "0", "007", "", "x.csv", "csv", "a.csv", "abcsv", "Logs", "1a",
+            "timeseries.csv", "emissions", "summary.csv", "estimated", "emissions.csv", "repaired", "to", "remove.csv",
+            "xtimeseries.csv", "timeseries.csvx"]
     for _ in range(ctx.pick(1500, 20000)):
         names.add("".join(rng.choice(alphabet) for _ in range(rng.randint(1, 7))))
+        names.add("_".join(rng.choice(toks) for _ in range(rng.randint(1, 7))))
     names = sorted(n for n in names if n and " " not in n)
     lines, expect = [], []
     for nm in names:
@@ -658,7 +662,7 @@ def run(ctx):
     for n in ns:
         for keep in ((True, False) if (not ctx.quick or n in (1, 5, 6, 10, 11, 12)) else (ctx.rng.random() < 0.5,)):
             specs.append({"n": n, "keep": keep})
-    for _ in range(ctx.pick(6, 140)):
+    for _ in range(ctx.pick(14, 140)):
         specs.append({})
     worlds = []
     for sp in specs:
